@@ -1,6 +1,10 @@
 import Mp.Ast
 namespace Mp
 
+/-- the split the parser applies to the text of a key token: the `?` mark is one byte at its end -/
+def splitMark (tok : Bytes) : Bytes × Bool := if tok.getLast? == some 63 then (tok.dropLast, true) else (tok, false)
+
+
 inductive PR (α : Type) where
   | ok (a : α) (r : TokKind) (s : Sc)
   | err
@@ -98,7 +102,7 @@ def pathLoop (T : Tables) : Nat → (root isFilter mustEnd : Bool) → List Path
         | .err => .err | .panic => .panic | .fuel => .fuel
       else
         let name := s.tok
-        let (nm, prop) := if name.getLast? == some 63 then (name.dropLast, true) else (name, false)
+        let (nm, prop) := splitMark name
         let (r1, s1) := scan T s
         pathLoop T fuel root isFilter mustEnd (.ident nm prop name :: ops) (us ++ name) r1 s1
     | _ => .err
